@@ -2,9 +2,72 @@
 """Behaviour-preserving rewrites of /repo/graphiq in a scratch dir; every check must stay silent (exit 0) on them.
   reformat : every module re-emitted by ast.unparse (all formatting / comments / docstring layout changed)
   shift    : 7 blank lines + a comment block inserted at the top of every module and before every def (line numbers move)
-usage: tools/falsealarm.py [reformat|shift]"""
+  rename   : every local variable of every function alpha-renamed (x -> x_v); a check may answer exit 2 (a local name it anchors on
+             vanished) but never exit 1
+  swapif   : every two-armed `if c: A else: B` (not an elif chain) rewritten as `if not c: B else: A`; same expectation
+usage: tools/falsealarm.py [reformat|shift|rename|swapif]"""
 import ast, os, shutil, subprocess, sys, tempfile
 mode = sys.argv[1] if len(sys.argv) > 1 else "reformat"
+
+
+def _own_nodes(fn):
+    """nodes of fn's own scope (not inside nested def/lambda/class bodies)"""
+    todo = list(fn.body)
+    while todo:
+        n = todo.pop()
+        yield n
+        for c in ast.iter_child_nodes(n):
+            if isinstance(c, (ast.FunctionDef, ast.AsyncFunctionDef, ast.Lambda, ast.ClassDef)):
+                continue
+            todo.append(c)
+
+
+def rename_locals(src):
+    tree = ast.parse(src)
+    for fn in [n for n in ast.walk(tree) if isinstance(n, (ast.FunctionDef, ast.AsyncFunctionDef))]:
+        if any(isinstance(n, ast.Name) and n.id in ("locals", "vars", "eval", "exec") for n in ast.walk(fn)):
+            continue
+        params = {a.arg for a in fn.args.posonlyargs + fn.args.args + fn.args.kwonlyargs}
+        if fn.args.vararg: params.add(fn.args.vararg.arg)
+        if fn.args.kwarg: params.add(fn.args.kwarg.arg)
+        banned = set(params)
+        for n in ast.walk(fn):
+            if isinstance(n, (ast.Global, ast.Nonlocal)):
+                banned |= set(n.names)
+            if n is not fn and isinstance(n, (ast.FunctionDef, ast.AsyncFunctionDef, ast.Lambda)):
+                a = n.args
+                banned |= {x.arg for x in a.posonlyargs + a.args + a.kwonlyargs}
+                if a.vararg: banned.add(a.vararg.arg)
+                if a.kwarg: banned.add(a.kwarg.arg)
+                if not isinstance(n, ast.Lambda):
+                    banned.add(n.name)
+                    # names assigned inside a nested def are that def's locals; renaming only the outer uses would be wrong
+                    banned |= {x.id for x in ast.walk(n) if isinstance(x, ast.Name) and isinstance(x.ctx, ast.Store)}
+            if isinstance(n, (ast.Import, ast.ImportFrom)):
+                banned |= {(al.asname or al.name).split(".")[0] for al in n.names}
+            if isinstance(n, ast.ExceptHandler) and n.name:
+                banned.add(n.name)
+            if isinstance(n, ast.ClassDef):
+                banned.add(n.name)
+        stores = {n.id for n in _own_nodes(fn) if isinstance(n, ast.Name) and isinstance(n.ctx, ast.Store)} - banned
+        # do not rename a local of an enclosing function that this function only reads (closure): only names stored here
+        for n in ast.walk(fn):
+            if isinstance(n, ast.Name) and n.id in stores:
+                n.id = n.id + "_v"
+        # enclosing-scope safety: mark so that outer functions do not rename again
+    # a name renamed in a nested function may also be a free variable of... (stored there => local there): fine
+    return ast.unparse(tree) + "\n"
+
+
+def swap_ifs(src):
+    tree = ast.parse(src)
+    for n in ast.walk(tree):
+        if isinstance(n, ast.If) and n.orelse and not (len(n.orelse) == 1 and isinstance(n.orelse[0], ast.If)):
+            # keep elif chains (the parent being an elif arm is fine: we only look at this node's own arms)
+            n.test = n.test.operand if isinstance(n.test, ast.UnaryOp) and isinstance(n.test.op, ast.Not) else ast.UnaryOp(op=ast.Not(), operand=n.test)
+            n.body, n.orelse = n.orelse, n.body
+    ast.fix_missing_locations(tree)
+    return ast.unparse(tree) + "\n"
 tmp = tempfile.mkdtemp(prefix="gqsa_fa_")
 try:
     shutil.copytree("/repo/graphiq", os.path.join(tmp, "graphiq"), ignore=shutil.ignore_patterns("__pycache__"))
@@ -16,6 +79,10 @@ try:
             src = open(p, encoding="utf-8").read()
             if mode == "reformat":
                 new = ast.unparse(ast.parse(src)) + "\n"
+            elif mode == "rename":
+                new = rename_locals(src)
+            elif mode == "swapif":
+                new = swap_ifs(src)
             else:
                 out = ["# moved\n"] * 3 + ["\n"] * 7
                 for line in src.splitlines(keepends=True):
@@ -30,11 +97,11 @@ try:
     bad = 0
     for i in range(1, 21):
         pid = f"C{i:02d}"
-        r = subprocess.run([os.path.join(here, "check"), pid, "--repo", tmp, "--no-evidence", "--tier", "thorough" if mode == "reformat" else "quick"],
+        r = subprocess.run([os.path.join(here, "check"), pid, "--repo", tmp, "--no-evidence", "--tier", "thorough" if mode == "reformat" else "quick"] + (["--known", "/dev/null"] if False else []),
                            capture_output=True, text=True)
         tail = [l for l in r.stdout.splitlines() if l.startswith(("VIOLATION", "ANALYSIS-ERROR", "SELFTEST C")) and ("VIOL" in l or "ERROR" in l or "variants=" in l)]
         print(pid, "exit", r.returncode, " | ".join(tail)[:200])
-        bad += r.returncode != 0
+        bad += (r.returncode != 0) if mode in ("reformat", "shift") else (r.returncode == 1)
     print("FALSE-ALARM TEST", mode, "failures:", bad)
     sys.exit(1 if bad else 0)
 finally:
